@@ -14,6 +14,7 @@
 #include <signal.h>
 #include <stdlib.h>
 #include <string.h>
+#include <sys/mman.h>
 #include <sys/resource.h>
 #include <sys/stat.h>
 #include <sys/time.h>
@@ -231,9 +232,20 @@ static void run_line(char *line) {
             else iface_kv(f, tok[i], eq + 1);
         }
         if (f->mtu == 0) f->mtu = 1500;
-        free(f->rxbuf);
         f->rxcap = f->mtu;
-        f->rxbuf = malloc(f->rxcap);
+        if (getenv("VH_GUARD_RX")) {
+            /* guard-page allocator: the buffer ends exactly where 2 MiB of PROT_NONE begin, so an access
+             * that jumps far over a sanitizer red zone still faults */
+            size_t pg = 4096, guard = 2u << 20;
+            size_t body = (f->rxcap + pg - 1) / pg * pg;
+            uint8_t *m = mmap(NULL, body + guard, PROT_READ | PROT_WRITE, MAP_PRIVATE | MAP_ANONYMOUS, -1, 0);
+            if (m == MAP_FAILED) { perror("mmap"); exit(3); }
+            mprotect(m + body, guard, PROT_NONE);
+            f->rxbuf = m + body - f->rxcap;
+        } else {
+            free(f->rxbuf);
+            f->rxbuf = malloc(f->rxcap);
+        }
         vp_fill_stream(f->rxbuf, f->rxcap, rxseed);   /* defined, seeded initial content */
     } else if (!strcmp(op, "SET")) {
         vp_iface *f = ifc_of(tok[1]);
